@@ -693,8 +693,10 @@ theorem lookup_refines (hist : List Op) (hv : ValidHist hist) (tok : Int) :
   have := (main_induction hist.reverse (by rwa [List.reverse_reverse])).2 tok
   rwa [List.reverse_reverse] at this
 
-/-- never stale, spelled out: whatever is answered covers the token and comes from an insert of the history
-(with the same range) — an overlapped or discarded tablet is never returned. -/
+/-- A weak, range-only consequence (kept for its users): whatever is answered covers the token and some insert of
+the history has the same range.  It does NOT by itself exclude a stale replica list (a range re-learnt with other
+replicas); exactness is `lookup_refines`, and in flat form `lookup_answer_is_latest` below: the answer IS the
+latest covering insert, as maintained — replicas included. -/
 theorem lookup_never_stale (hist : List Op) (hv : ValidHist hist) (tok : Int) (u : Tablet)
     (h : tabletForToken (run hist).tablets tok = some u) :
     u.first ≤ tok ∧ tok ≤ u.last ∧ ∃ t, Op.insert t ∈ hist ∧ t.first = u.first ∧ t.last = u.last := by
@@ -2509,10 +2511,11 @@ open ScyllaVerif.TabletsRefresh
 /-- the single-tablet learn a batch item amounts to -/
 def learnOf (it : RawItem) : COp := .learn it.1.1 it.1.2 it.2.1 it.2.2.1 it.2.2.2
 
-/-- **A batch is the sequence of its single learns, in order** (`update_tablets` loops over the batch; the
-translator over `known_nodes` is the same for every item because learning does not touch `known_nodes`): nothing
-of the batch is skipped or reordered, so a later tablet of the batch wins over an earlier one it overlaps —
-the same range twice, `A, B, A`, several tables interleaved. -/
+/-- Unfolding of the model's `learnBatch` (a restatement of its definition, not a fact about the Rust): the
+model of `update_tablets` is the fold of single learns over the batch, in order, with one translator — learning
+does not touch `known_nodes`.  That the Rust loop really processes every item, in order, without skipping
+repeated keys is what the `B` cases of the differential run check; what this buys is that every theorem about
+histories of single learns speaks about batches (`brun_eq_crun`). -/
 theorem learn_batch_eq_foldl (cs : CState) (batch : List RawItem) :
     (learnBatch cs batch).1 = batch.foldl (fun cs it => (learn cs it.1 it.2.1 it.2.2.1 it.2.2.2).1) cs := by
   obtain ⟨known, info, gen⟩ := cs
@@ -2627,5 +2630,203 @@ example : sig (learnBatch bcs [(("k0", "t0"), 0, 5, [(1, 0)]), (("k0", "t0"), 3,
     = [[(0, 5, [(1, 0)])]] := by decide
 
 end Batch
+
+/-! ### never stale, exactly -/
+
+/-- **The specification in flat form, both directions**: if `insert t` covers the token and no later insert
+covers it, the answer is `t` as the later operations left it (`survive`): `t` with its replicas as maintained,
+or nothing if a later insert overlapped it or maintenance discarded it. -/
+theorem lookupSpec_eq_survive (older later : List Op) (t : Tablet) (tok : Int) (hc : covers tok t = true)
+    (hno : ∀ u, Op.insert u ∈ later → covers tok u = false) :
+    lookupSpec (older ++ .insert t :: later) tok = survive t later := by
+  have key : ∀ (rl : List Op), (∀ u, Op.insert u ∈ rl → covers tok u = false) →
+      lookupSpecRev (rl ++ .insert t :: older.reverse) tok = survive t rl.reverse := by
+    intro rl
+    induction rl with
+    | nil => intro _; simp [lookupSpecRev, hc, survive]
+    | cons op rl ih =>
+      intro h
+      have ih' := ih (fun u hu => h u (List.mem_cons_of_mem _ hu))
+      simp only [survive, List.reverse_cons, List.foldl_append, List.foldl_cons, List.foldl_nil] at ih' ⊢
+      cases op with
+      | insert u =>
+        have hcu := h u List.mem_cons_self
+        simp only [List.cons_append, lookupSpecRev, hcu, Bool.false_eq_true, if_false, ih']
+        cases hs : List.foldl (fun o op => o.bind (survStep op)) (some t) rl.reverse with
+        | none => simp
+        | some v => simp [survStep]
+      | maint rm ns rc =>
+        simp only [List.cons_append, lookupSpecRev, ih']
+        cases hs : List.foldl (fun o op => o.bind (survStep op)) (some t) rl.reverse with
+        | none => simp
+        | some v => simp [survStep]
+  have := key later.reverse (fun u hu => hno u (List.mem_reverse.mp hu))
+  simpa [lookupSpec] using this
+
+/-- the same for the implementation's lookup -/
+theorem lookup_eq_survive (older later : List Op) (t : Tablet) (tok : Int)
+    (hv : ValidHist (older ++ .insert t :: later)) (hc : covers tok t = true)
+    (hno : ∀ u, Op.insert u ∈ later → covers tok u = false) :
+    tabletForToken (run (older ++ .insert t :: later)).tablets tok = survive t later := by
+  rw [lookup_refines _ hv]
+  exact lookupSpec_eq_survive older later t tok hc hno
+
+private theorem exists_latest_cover (tok : Int) : ∀ (hist : List Op),
+    (∃ t, Op.insert t ∈ hist ∧ covers tok t = true) →
+    ∃ older t later, hist = older ++ .insert t :: later ∧ covers tok t = true ∧
+      ∀ u, Op.insert u ∈ later → covers tok u = false := by
+  intro hist
+  induction hist with
+  | nil => rintro ⟨t, ht, _⟩; cases ht
+  | cons op rest ih =>
+    intro h
+    by_cases hr : ∃ t, Op.insert t ∈ rest ∧ covers tok t = true
+    · obtain ⟨older, t, later, e, hc, hno⟩ := ih hr
+      exact ⟨op :: older, t, later, by rw [e]; rfl, hc, hno⟩
+    · obtain ⟨t, ht, hc⟩ := h
+      rcases List.mem_cons.mp ht with e | ht'
+      · refine ⟨[], t, rest, by rw [← e]; rfl, hc, ?_⟩
+        intro u hu
+        cases hx : covers tok u
+        · rfl
+        · exact absurd ⟨u, hu, hx⟩ hr
+      · exact absurd ⟨t, ht', hc⟩ hr
+
+/-- **Never stale, exactly**: whatever `tablet_for_token` answers after a valid history IS the latest insert
+covering the token, as the later operations maintained it — same range, and its replicas are those of that
+latest insert as re-resolved / swapped by the later maintenance steps (never those of an older insert of the same
+range, never those of a tablet a later insert overlapped). -/
+theorem lookup_answer_is_latest (hist : List Op) (hv : ValidHist hist) (tok : Int) (u : Tablet)
+    (h : tabletForToken (run hist).tablets tok = some u) :
+    ∃ older t later, hist = older ++ .insert t :: later ∧ covers tok t = true ∧
+      (∀ w, Op.insert w ∈ later → covers tok w = false) ∧ survive t later = some u := by
+  obtain ⟨h1, h2, t0, ht0, e1, e2⟩ := lookup_never_stale hist hv tok u h
+  have hc0 : covers tok t0 = true := by simp [covers]; omega
+  obtain ⟨older, t, later, e, hc, hno⟩ := exists_latest_cover tok hist ⟨t0, ht0, hc0⟩
+  refine ⟨older, t, later, e, hc, hno, ?_⟩
+  subst e
+  rw [← lookup_eq_survive older later t tok hv hc hno]
+  exact h
+
+-- non-vacuity (the auditor's shape): the same range learnt twice with other replicas - the answer is the later one
+example : tabletForToken (run [.insert (tr 0 9 [1]), .insert (tr 0 9 [2])]).tablets 5 = some (tr 0 9 [2]) ∧
+    survive (tr 0 9 [2]) [] = some (tr 0 9 [2]) ∧ survive (tr 0 9 [1]) [.insert (tr 0 9 [2])] = none := by decide
+
+/-! ### views, batches that cannot panic, and the cluster-level datacenter restriction -/
+
+section Round2
+open ScyllaVerif.TabletsRefresh
+
+/-- **Materialized views are kept like tables**: after `perform_maintenance`, a table OR a view of a tablet-based
+keyspace has an entry in the tablet map (its old tablets, maintained, or an empty entry) and everything else
+has none. -/
+theorem maintenanceKs_entry_iff (inf : Info) (kss : List KsMeta) (hnd : (kss.map (·.name)).Nodup)
+    (rm : List Nat) (ns rc : List (Nat × Node)) (ks : KsMeta) (hks : ks ∈ kss) (name : String) :
+    (alGet (ks.name, name) (inf.maintenanceKs kss rm ns rc).tables).isSome =
+      (ks.tabletBased && (ks.tables.contains name || ks.views.contains name)) := by
+  have hnd' : ((kss.map KsMeta.entry).map (·.1)).Nodup := by
+    simpa [List.map_map, Function.comp_def, KsMeta.entry] using hnd
+  have hget : alGet ks.name (kss.map KsMeta.entry) = some (ks.tabletBased, ks.tables ++ ks.views) := by
+    clear hnd'
+    induction kss with
+    | nil => cases hks
+    | cons k kss ih =>
+      simp only [List.map_cons, List.nodup_cons] at hnd
+      rcases List.mem_cons.mp hks with rfl | hm
+      · simp [alGet, KsMeta.entry]
+      · have hne : ¬ k.name = ks.name := by
+          intro e
+          apply hnd.1
+          rw [e]
+          exact List.mem_map.mpr ⟨ks, hm, rfl⟩
+        simp only [List.map_cons, alGet, KsMeta.entry, hne, if_false]
+        exact ih hnd.2 hm
+  unfold Info.maintenanceKs
+  rw [alGet_maintenance _ _ hnd']
+  have hk : keptBy (kss.map KsMeta.entry) (ks.name, name)
+      = (ks.tabletBased && (ks.tables.contains name || ks.views.contains name)) := by
+    simp [keptBy, hget, List.contains_eq_mem, List.mem_append]
+  rw [hk]
+  cases (ks.tabletBased && (ks.tables.contains name || ks.views.contains name)) <;> simp
+
+example : ((Info.empty.addTablet ("ks", "v") (tb 1 5)).1.maintenanceKs [⟨"ks", true, ["t"], ["v"]⟩] [] [] []).tables
+    = [(("ks", "v"), ⟨[tb 1 5], false⟩), (("ks", "t"), Table.empty)] ∧
+    ((Info.empty.addTablet ("ks", "v") (tb 1 5)).1.maintenanceKs [⟨"ks", true, ["t"], []⟩] [] [] []).tables
+    = [(("ks", "t"), Table.empty)] := by decide
+
+/-- **No item of a batch panics** on a well-formed tablet map when every item is a non-empty range — so the
+model's fold (which would go on after a panic) and the Rust loop (which is unwound by it) never differ on what
+`from_custom_payload` can produce. -/
+theorem learnBatch_no_panic (cs : CState) (h : InfoInv cs.info) (batch : List RawItem)
+    (hv : ∀ it ∈ batch, it.2.1 ≤ it.2.2.1) :
+    (learnBatch cs batch).2 = true ∧ InfoInv (learnBatch cs batch).1.info := by
+  have key : ∀ (batch : List RawItem) (inf : Info), InfoInv inf → (∀ it ∈ batch, it.2.1 ≤ it.2.2.1) →
+      (batch.foldl (learnItem (translator cs.known)) (inf, true)).2 = true ∧
+      InfoInv (batch.foldl (learnItem (translator cs.known)) (inf, true)).1 := by
+    intro batch
+    induction batch with
+    | nil => intro inf hi _; exact ⟨rfl, hi⟩
+    | cons it batch ih =>
+      intro inf hi hv
+      simp only [List.foldl_cons]
+      have hit : (Tablet.fromRaw it.2.1 it.2.2.1 it.2.2.2 (translator cs.known)).first
+          ≤ (Tablet.fromRaw it.2.1 it.2.2.1 it.2.2.2 (translator cs.known)).last := hv it List.mem_cons_self
+      obtain ⟨a, b⟩ := info_inv_add inf hi it.1.1 it.1.2 _ hit
+      have e1 : learnItem (translator cs.known) (inf, true) it =
+          ((inf.addTablet it.1 (Tablet.fromRaw it.2.1 it.2.2.1 it.2.2.2 (translator cs.known))).1, true) := by
+        simp only [learnItem, Bool.true_and]
+        rw [show ((it.1.1, it.1.2) : String × String) = it.1 from rfl] at b
+        rw [b]
+      rw [e1]
+      exact ih _ a (fun x hx => hv x (List.mem_cons_of_mem _ hx))
+  exact key batch cs.info h hv
+
+/-- the tablet map of every state reached by batches and refreshes is well-formed (so `learnBatch_no_panic` applies
+to every `update_tablets` call of a history of non-empty ranges) -/
+theorem infoInv_brun (ops : List BOp) (hv : ∀ items, BOp.batch items ∈ ops → ∀ it ∈ items, it.2.1 ≤ it.2.2.1) :
+    InfoInv (brun ops).info := by
+  have key : ∀ (ops : List BOp) (cs : CState), InfoInv cs.info →
+      (∀ items, BOp.batch items ∈ ops → ∀ it ∈ items, it.2.1 ≤ it.2.2.1) → InfoInv (ops.foldl bstep cs).info := by
+    intro ops
+    induction ops with
+    | nil => intro cs h _; exact h
+    | cons op ops ih =>
+      intro cs h hv
+      simp only [List.foldl_cons]
+      apply ih
+      · cases op with
+        | batch items => exact (learnBatch_no_panic cs h items (hv items List.mem_cons_self)).2
+        | refresh peers kss => exact info_inv_maint cs.info h kss _ _ _
+      · exact fun items hm => hv items (List.mem_cons_of_mem _ hm)
+  exact key ops CState.init (by intro e he; simp [CState.init, Info.empty] at he) hv
+
+/-- **Datacenter restriction at the cluster level**, as an equality: for every table of the tablet map of every
+state reached by learns and refreshes. -/
+theorem cluster_dc_restrict (ops : List COp) (spec : String × String) (tbl : Table)
+    (hm : (spec, tbl) ∈ (crun ops).info.tables) (tok : Int) (dc : String) :
+    dcReplicasForToken tbl.tablets tok dc =
+      (replicasForToken tbl.tablets tok).map (fun all => all.filter (fun p => decide (p.1.dc = some dc))) := by
+  have hs := (stateOk_run ops).2 (spec, tbl) hm
+  unfold dcReplicasForToken replicasForToken
+  cases h : tabletForToken tbl.tablets tok with
+  | none => rfl
+  | some t =>
+    simp only [Option.map_some]
+    rw [(hs t (lookup_mem h)).2 dc]
+
+/-- the same through the locator's tablet branch (`replicas_for_token` of `locator/mod.rs`) -/
+theorem locator_dc_restrict (ops : List COp) (spec : String × String) (tok : Int) (dc : String) :
+    locatorTabletReplicas (crun ops).info spec tok (some dc) =
+      (locatorTabletReplicas (crun ops).info spec tok none).map
+        (fun all => all.filter (fun p => decide (p.1.dc = some dc))) := by
+  unfold locatorTabletReplicas
+  cases hg : alGet spec (crun ops).info.tables with
+  | none => rfl
+  | some tbl =>
+    simp only [Option.map_some]
+    rw [cluster_dc_restrict ops spec tbl (alGet_mem _ _ _ hg) tok dc]
+    cases replicasForToken tbl.tablets tok <;> simp
+
+end Round2
 
 end ScyllaVerif.Props.C15
